@@ -79,9 +79,11 @@ def apalache(ctx):
         raise core.Infra("sensitivity: the historic overflow guard is no longer refuted by Apalache")
     out = ctx.sub("c01pts")
     ctx.run_driver(ctx.build_harness(), "TestDrv_C01Points", out)
-    import shutil
-    shutil.copy(os.path.join(out, "Pts.tla"), os.path.join(d, "Pts.tla"))
-    ok = apalache_run(ctx, d, "CPPoints", "Conform", timeout=1500)
+    import shutil, glob as _glob
+    ok = True
+    for chunk in sorted(_glob.glob(os.path.join(out, "Pts_*.tla"))):
+        shutil.copy(chunk, os.path.join(d, "Pts.tla"))
+        ok = apalache_run(ctx, d, "CPPoints", "Conform", timeout=900) and ok
     pts = json.load(open(os.path.join(out, "c01points.summary.json")))
     ctx.coverage["apalache"] = {"symbolic_invariants_int64": obligations, "historic_guard_refuted": True,
                                 "recorded_points_checked": pts["points"], "points_conform": ok}
